@@ -1,15 +1,14 @@
-(* Parse, part 13 (C15, the directory walk): ANY bytes, ANY root pointer, ANY path table.
-     parse_file_total_any_image / parse_total_any_image
-                              the walk terminates: with a fuel computed from the SIZE of the image alone
-                              (blocks * (bytes + 1) + 2) the model never runs out of fuel
-     parse_work_bounded_partial   records and inodes created <= blocks * bytes  (QUADRATIC in the size)
-     parse_work_bounded_refuted   ... and a linear bound is FALSE: a directory record may claim any
-                              data_length, so directories OVERLAP and the same bytes are parsed once per
-                              directory that covers them (witness: 3 blocks, 304 records; the family
-                              ps_chain n k gives n + 1 + k*n*(n+1)/2 records from n blocks; real library:
-                              /var/tmp/parse/probe_quadratic.py, probe_overlap.py)
-     parse_only_documented_errors every failure of the model is one of the eight raise points below, or
-                              leaves the modelled fragment *)
+(* Parse, part 13 (C15, the directory walk as repaired by commit 863c802): ANY bytes, ANY root pointer, ANY path table.
+     parse_file_total_any_image   the walk terminates: fuel 2048*(bytes/2048+1)/33 + 3, LINEAR in the size of the
+                                  image, is never exhausted (parse_total_any_image: the Master.image reader)
+     parse_work_linear            33 * records <= bytes + 2048, 33 * inodes <= bytes + 2048
+     parse_work_bounded_refuted_old   for the walk BEFORE that commit the bound was false: directories could
+                                  overlap (3 blocks, 304 records; n + 1 + k*n*(n+1)/2 records from n blocks);
+                                  the repaired walk answers raise point 9 on those images
+     parse_only_documented_errors every failure of the model is one of the nine raise points below, or leaves
+                                  the modelled fragment
+   NOT covered by these bounds (known finding): inside ONE directory track_child re-walks the children after the
+   insertion point, quadratic for descending names (/var/tmp/parse/probe_quadratic.py) *)
 From Coq Require Import ZArith List Bool Lia ZifyBool FinFun.
 From PV.Base Require Import Prim ListX.
 From PV.Gen Require Import GenConst GenFun.
@@ -22,40 +21,64 @@ Local Open Scope Z_scope.
 
 Definition ps_file_U (bytes : list Z) : list Z := map Z.of_nat (seq 0 (S (length bytes / 2048))).
 
-Lemma ps_file_rd_bounded bytes : ps_rd_bounded (ps_file_read bytes) (ps_file_U bytes) (length bytes).
+Lemma ps_filter_all {A} (f : A -> bool) l : (forall x, In x l -> f x = true) -> filter f l = l.
+Proof.
+  induction l as [|x l IH]; intros H; [reflexivity|]. cbn [filter]. rewrite (H x (or_introl eq_refl)).
+  rewrite IH; [reflexivity|]. intros y Hy. apply H. right. exact Hy.
+Qed.
+
+(* the data handed out for a directory lies in the blocks of its dir_block_range, all of them inside the file *)
+Lemma ps_file_rd_ok bytes : ps_rd_ok (ps_file_read bytes) (zlen bytes) (ps_file_U bytes) 2048.
 Proof.
   intros ext len data H Hne. unfold ps_file_read in H.
   destruct ((ext <? 0) || (len <? 0)) eqn:E; [discriminate|]. injection H as <-.
   apply orb_false_elim in E. destruct E as [E1 E2].
-  assert (Hk : (Z.to_nat (ext * BS) < length bytes)%nat).
-  { destruct (Nat.lt_ge_cases (Z.to_nat (ext * BS)) (length bytes)) as [H|H]; [exact H|].
-    exfalso. apply Hne. rewrite skipn_all2 by (unfold zlen; lia). apply firstn_nil. }
-  split.
-  - unfold ps_file_U. apply in_map_iff. exists (Z.to_nat ext). split; [lia|]. apply in_seq.
+  assert (Hk : ext * BS < zlen bytes).
+  { destruct (Z.lt_ge_cases (ext * BS) (zlen bytes)) as [H|H]; [exact H|].
+    exfalso. apply Hne. rewrite skipn_all2 by (unfold zlen in *; lia). apply firstn_nil. }
+  assert (Hlen : 0 < len).
+  { destruct (Z.lt_ge_cases 0 len) as [H|H]; [exact H|]. exfalso. apply Hne.
+    replace (Z.to_nat (Z.min len (zlen bytes))) with 0%nat by lia. reflexivity. }
+  set (d := Z.min len (Z.max (zlen bytes - ext * BS) 0)).
+  assert (Hd : 0 < d <= zlen bytes - ext * BS) by (unfold d; lia).
+  assert (Hall : ps_inU (ps_file_U bytes) (ps_range (zlen bytes) ext len) = ps_range (zlen bytes) ext len).
+  { apply ps_filter_all. intros b Hb. apply ps_mem_in. unfold ps_range in Hb. fold d in Hb.
+    apply in_map_iff in Hb. destruct Hb as (k & <- & Hk'). apply in_seq in Hk'.
+    unfold ps_file_U. apply in_map_iff. exists (Z.to_nat (ext + Z.of_nat k)). split; [lia|]. apply in_seq.
     split; [lia|]. cbn [Nat.add]. apply Nat.lt_succ_r. apply Nat.div_le_lower_bound; [lia|].
-    rewrite ms_BS in Hk. lia.
-  - rewrite firstn_length, skipn_length. lia.
+    unfold ceiling_div in Hk'. rewrite ms_BS in *. unfold zlen in *. lia. }
+  rewrite Hall. unfold ps_range. fold d. rewrite map_length, seq_length, firstn_length, skipn_length.
+  unfold ceiling_div. rewrite ms_BS in *. unfold zlen in *. lia.
 Qed.
 
-Definition ps_file_fuel (bytes : list Z) : nat := ps_fuel_any (ps_file_U bytes) (length bytes).
+Definition ps_file_fuel (bytes : list Z) : nat := ps_fuel_any (ps_file_U bytes) 2048.
 
 (* ---- THEOREM 1 -------------------------------------------------------------------------------------------- *)
-(* fuel = (bytes/2048 + 1) * (bytes + 1) + 2 *)
+(* fuel = 2048 * (bytes/2048 + 1) / 33 + 3: LINEAR in the length of the image *)
 Theorem parse_file_total_any_image bytes ptr re rl :
   parse_file (ps_file_fuel bytes) bytes ptr re rl <> PFuel.
-Proof. apply ps_parse_total. apply ps_file_rd_bounded. Qed.
+Proof. apply ps_parse_total. apply ps_file_rd_ok. Qed.
 
 Lemma ps_file_fuel_value bytes :
-  ps_file_fuel bytes = ((length bytes / 2048 + 1) * (length bytes + 1) + 2)%nat.
-Proof. unfold ps_file_fuel, ps_fuel_any, ps_file_U. rewrite map_length, seq_length. lia. Qed.
-
-(* ---- THEOREM 2 (what is true) ---------------------------------------------------------------------------- *)
-Theorem parse_work_bounded_partial bytes fuel ptr re rl g : parse_file fuel bytes ptr re rl = POk g ->
-  (length (ps_all_recs g) <= (length bytes / 2048 + 1) * length bytes)%nat /\
-  (length (g_inodes g) <= (length bytes / 2048 + 1) * length bytes)%nat.
+  ps_file_fuel bytes = (2048 * (length bytes / 2048 + 1) / 33 + 3)%nat /\
+  (33 * ps_file_fuel bytes <= length bytes + 2048 + 99)%nat.
 Proof.
-  intros H. destruct (ps_parse_bounded _ _ _ _ _ _ _ _ _ (ps_file_rd_bounded bytes) H) as [A B].
-  unfold ps_file_U in A, B. rewrite map_length, seq_length in A, B. split; lia.
+  unfold ps_file_fuel, ps_fuel_any, ps_file_U. rewrite map_length, seq_length.
+  replace (S (length bytes / 2048)) with (length bytes / 2048 + 1)%nat by lia. split; [reflexivity|].
+  pose proof (Nat.div_mod (length bytes) 2048 ltac:(lia)).
+  pose proof (Nat.div_mod (2048 * (length bytes / 2048 + 1)) 33 ltac:(lia)). lia.
+Qed.
+
+(* ---- THEOREM 2 -------------------------------------------------------------------------------------------- *)
+(* every record that parses takes 33 bytes or more of a block that belongs to exactly one walked directory, and
+   these blocks lie inside the file: 33 * records <= bytes + 2048 (the last block may be cut), same for inodes *)
+Theorem parse_work_linear bytes fuel ptr re rl g : parse_file fuel bytes ptr re rl = POk g ->
+  (33 * length (ps_all_recs g) <= length bytes + 2048)%nat /\
+  (33 * length (g_inodes g) <= length bytes + 2048)%nat.
+Proof.
+  intros H. destruct (ps_parse_bounded _ _ _ _ _ _ _ _ _ (ps_file_rd_ok bytes) H) as [A B].
+  unfold ps_file_U in A, B. rewrite map_length, seq_length in A, B.
+  pose proof (Nat.div_mod (length bytes) 2048 ltac:(lia)). split; lia.
 Qed.
 
 (* ---- the Master.image reader ------------------------------------------------------------------------------------ *)
@@ -97,8 +120,8 @@ Proof.
       replace (e + Z.of_nat (S k)) with (e + 1 + Z.of_nat k) by lia. apply B2. lia.
 Qed.
 
-Lemma ps_img_rd_bounded img :
-  ps_rd_bounded (ms_img_read img) (ps_blocks img) (length (ps_blocks img) * 2048).
+Lemma ps_img_rd_ok img isz :
+  ps_rd_ok (ms_img_read img) isz (ps_blocks img) (length (ps_blocks img) * 2048).
 Proof.
   intros ext len data H Hne. unfold ms_img_read in H.
   destruct (ms_read_blocks img ext (Z.to_nat (ceiling_div len BS))) as [d|] eqn:E; [|discriminate].
@@ -109,22 +132,26 @@ Proof.
     apply NoDup_incl_length.
     - apply FinFun.Injective_map_NoDup; [intros a b Hab; lia|apply seq_NoDup].
     - intros x Hx. apply in_map_iff in Hx. destruct Hx as (k & <- & Hk). apply in_seq in Hk. apply B. lia. }
-  split.
-  - destruct n as [|n']; [cbn in A; destruct d; [|cbn in A; lia]; rewrite firstn_nil in Hne; congruence|].
-    specialize (B 0%nat ltac:(lia)). rewrite Z.add_0_r in B. exact B.
-  - rewrite firstn_length. nia.
+  assert (Hext : In ext (ps_blocks img)).
+  { destruct n as [|n']; [cbn in A; destruct d; [|cbn in A; lia]; rewrite firstn_nil in Hne; congruence|].
+    specialize (B 0%nat ltac:(lia)). rewrite Z.add_0_r in B. exact B. }
+  assert (Hone : (1 <= length (ps_inU (ps_blocks img) (ps_range isz ext len)))%nat).
+  { unfold ps_range.
+    destruct (Z.to_nat (Z.max (ceiling_div (Z.min len (Z.max (isz - ext * BS) 0)) BS) 1)) as [|m] eqn:Em; [lia|].
+    cbn [seq map ps_inU filter]. rewrite Z.add_0_r. apply ps_mem_in in Hext. rewrite Hext. cbn [length]. lia. }
+  rewrite firstn_length. nia.
 Qed.
 
 Definition ps_img_fuel (img : image) : nat := ps_fuel_any (ps_blocks img) (length (ps_blocks img) * 2048).
 
 Theorem parse_total_any_image img ptr isz re rl : parse (ps_img_fuel img) img ptr isz re rl <> PFuel.
-Proof. apply ps_parse_total. apply ps_img_rd_bounded. Qed.
+Proof. apply ps_parse_total. apply ps_img_rd_ok. Qed.
 
 Theorem parse_work_bounded_image img fuel ptr isz re rl g : parse fuel img ptr isz re rl = POk g ->
-  (length (ps_all_recs g) <= length (ps_blocks img) * (length (ps_blocks img) * 2048))%nat.
-Proof. intros H. exact (proj1 (ps_parse_bounded _ _ _ _ _ _ _ _ _ (ps_img_rd_bounded img) H)). Qed.
+  (33 * length (ps_all_recs g) <= length (ps_blocks img) * 2048 * length (ps_blocks img))%nat.
+Proof. intros H. exact (proj1 (ps_parse_bounded _ _ _ _ _ _ _ _ _ (ps_img_rd_ok img isz) H)). Qed.
 
-(* ---- THEOREM 2 (what is false) ---------------------------------------------------------------------------- *)
+(* ---- THEOREM 2 was FALSE for the walk before commit 863c802 ---------------------------------------------------------------------------- *)
 
 (* n blocks at extents 0..n-1; the root covers all of them; block 0 also holds directory records D_b -> (extent b,
    the REST of the image) for b = 1..n-1; every block holds k zero-length file records *)
@@ -142,17 +169,21 @@ Definition ps_ch_block (n k b : nat) : list Z :=
       end) ++ ps_ch_files b k).
 Definition ps_chain (n k : nat) : list Z := flat_map (ps_ch_block n k) (seq 0 n).
 
+Definition ps_chain_parse (fixed : bool) (n k : nat) : presult pgraph :=
+  parse_file_gen fixed (length (ps_chain n k)) (ps_chain n k) (map Z.of_nat (seq 0 n)) 0 (Z.of_nat n * 2048).
 Definition ps_chain_records (n k : nat) : option nat :=
-  match parse_file (ps_file_fuel (ps_chain n k)) (ps_chain n k) (map Z.of_nat (seq 0 n)) 0 (Z.of_nat n * 2048) with
+  match ps_chain_parse false n k with
   | POk g => Some (length (ps_all_recs g))
   | _ => None
   end.
 
-(* "every 33-byte record of the image is parsed at most once" is false; the counts are n + 1 + k*n*(n+1)/2 *)
-Theorem parse_work_bounded_refuted :
-  zlen (ps_chain 3 50) = 6144 /\ ps_chain_records 3 50 = Some 304%nat /\ 33 * 304 > 6144 /\
+(* the OLD walk (parse_file_gen false): "33 * records <= bytes + 2048" was false; the counts are
+   n + 1 + k*n*(n+1)/2.  The repaired walk refuses the same images: raise point 9 *)
+Theorem parse_work_bounded_refuted_old :
+  zlen (ps_chain 3 50) = 6144 /\ ps_chain_records 3 50 = Some 304%nat /\ 33 * 304 > 6144 + 2048 /\
   ps_chain_records 1 10 = Some 12%nat /\ ps_chain_records 2 10 = Some 33%nat /\
-  ps_chain_records 3 10 = Some 64%nat /\ ps_chain_records 4 10 = Some 105%nat.
+  ps_chain_records 3 10 = Some 64%nat /\ ps_chain_records 4 10 = Some 105%nat /\
+  ps_chain_parse true 3 50 = PInvalid 9 /\ ps_chain_parse true 2 10 = PInvalid 9.
 Proof. vm_compute. repeat split; lia. Qed.
 
 (* ---- THEOREM 3 ------------------------------------------------------------------------------------------------ *)
@@ -168,11 +199,13 @@ Proof. vm_compute. repeat split; lia. Qed.
      5  int(version): ValueError                                                     PyCdlibInvalidISO (converted)
      6  raise PyCdlibInvalidISO('Invalid padding on ISO')                            PyCdlibInvalidISO
      7  raise PyCdlibInvalidISO('Directory loop on the ISO')                         PyCdlibInvalidISO
-     8  path_table_records[0]: IndexError                                            PyCdlibInvalidISO (converted) *)
+     8  path_table_records[0]: IndexError                                            PyCdlibInvalidISO (converted)
+     9  raise PyCdlibInvalidISO('Overlapping directories on the ISO')                PyCdlibInvalidISO
+   (7 belongs to the walk before commit 863c802; after it the set seen_dir_extents is never filled) *)
 Inductive ps_exn := PyCdlibInvalidISO | PyCdlibInvalidInput.
 Definition ps_exn_of (w : Z) : option ps_exn :=
   if w =? 4 then Some PyCdlibInvalidInput
-  else if (1 <=? w) && (w <=? 8) then Some PyCdlibInvalidISO else None.
+  else if (1 <=? w) && (w <=? 9) then Some PyCdlibInvalidISO else None.
 
 Definition ps_documented {A} (r : presult A) : Prop :=
   match r with
@@ -215,32 +248,35 @@ Proof.
     destruct (step s (firstn (Z.to_nat x) (x :: data'))); try exact H. apply IH.
 Qed.
 
-Lemma ps_walk_documented rd ptr isz : forall fuel st, ps_documented (ps_walk fuel rd ptr isz st).
+Lemma ps_walk_documented fixed rd ptr isz : forall fuel st, ps_documented (ps_walk fixed fuel rd ptr isz st).
 Proof.
   induction fuel as [|f IH]; intros st; [exact I|]. cbn [ps_walk].
   destruct (s_queue st) as [|[ext len] q]; [exact I|].
-  destruct (ps_mem ext (s_seen st)); [cbn; discriminate|].
+  destruct (ps_enter fixed isz (s_seen st) ext len) as [e|sn] eqn:Ee.
+  { unfold ps_enter in Ee. destruct fixed.
+    - cbv zeta in Ee. destruct (existsb _ _); [injection Ee as <-; cbn; discriminate|discriminate].
+    - destruct (ps_mem ext (s_seen st)); [injection Ee as <-; cbn; discriminate|discriminate]. }
   destruct (rd ext len) as [data|]; [|cbn; lia].
   pose proof (ps_scan_documented (ps_record ptr isz) (ps_record_documented ptr isz) (S (length data)) data 0 len
-                (ps_begin_dir st q ext, None)) as H.
+                (ps_begin_dir st q sn, None)) as H.
   destruct (ps_scan _ _ data 0 len _) as [[st' l']| | |]; try exact H. apply IH.
 Qed.
 
-Theorem parse_only_documented_errors fuel rd ptr isz re rl :
-  match ps_parse fuel rd ptr isz re rl with
+Theorem parse_only_documented_errors fixed fuel rd ptr isz re rl :
+  match ps_parse_gen fixed fuel rd ptr isz re rl with
   | PInvalid w => exists e, ps_exn_of w = Some e       (* a PyCdlibInvalidISO, or for 4 a PyCdlibInvalidInput *)
   | PUnsupported w => 1 <= w <= 3                     (* outside the modelled fragment *)
   | _ => True
   end.
 Proof.
-  unfold ps_parse. destruct ptr as [|e0 pt]; [exists PyCdlibInvalidISO; reflexivity|].
-  pose proof (ps_walk_documented rd (e0 :: pt) isz fuel (ps_init re rl)) as H.
-  destruct (ps_walk fuel rd (e0 :: pt) isz (ps_init re rl)); try exact H; try exact I.
+  unfold ps_parse_gen. destruct ptr as [|e0 pt]; [exists PyCdlibInvalidISO; reflexivity|].
+  pose proof (ps_walk_documented fixed rd (e0 :: pt) isz fuel (ps_init re rl)) as H.
+  destruct (ps_walk fixed fuel rd (e0 :: pt) isz (ps_init re rl)); try exact H; try exact I.
   cbn in H. destruct (ps_exn_of why) as [e|]; [exists e; reflexivity|congruence].
 Qed.
 
 Print Assumptions parse_file_total_any_image.
 Print Assumptions parse_total_any_image.
-Print Assumptions parse_work_bounded_partial.
-Print Assumptions parse_work_bounded_refuted.
+Print Assumptions parse_work_linear.
+Print Assumptions parse_work_bounded_refuted_old.
 Print Assumptions parse_only_documented_errors.
